@@ -279,6 +279,7 @@ class Ctx:
             "traces_validated_against_impl": self.traces,
             "stages": self.stage_reports,
             "known_findings_reported": self.known,
+            "notes": self.notes,
         }
         ev = {"property_id": self.pid, "tier": self.tier, "seed": self.seed, "level": level, "coverage": cov,
               "assumptions": spec.get("assumptions", []), "wall_s": round(time.time() - self.t0, 2),
@@ -434,6 +435,12 @@ def viol_context(path, c, ln):
             break
     # the violating frame answers a get request during whose lifetime another get response reached this connection
     g = lines[ln - 1].split("\t") if 0 < ln <= len(lines) else []
+    for x in lines[:ln]:
+        h = x.split("\t")
+        if len(h) > 5 and h[0] == "RESP" and h[1] == c and h[3] == "okrid" and ("~" + h[4] + "~") not in h[5]:
+            # a call/auth/new resource response that does not carry the resource's data (recorded finding
+            # KF-RESOURCE-RESPONSE-STALE); the dangling reference persists in later frames
+            ctx.append("okrid-without-data:" + h[4])
     if len(g) > 3 and g[0] == "RESP" and g[1] == c:
         start = None
         for i0, x in enumerate(lines[:ln - 1]):
@@ -487,6 +494,7 @@ def match_known(ctx, pid, kind, contexts, sites, rid=None):
 def run_traces(ctx, tdir):
     files = sorted(glob.glob(os.path.join(tdir, "*.trace")))
     viols, stats, stalls = [], [], []
+    crashes = []
     for i in range(0, len(files), 400):
         rc, out = sh([driver_exe(), "trace"] + files[i:i + 400], timeout=1800)
         if rc != 0:
@@ -501,18 +509,22 @@ def run_traces(ctx, tdir):
                               "viols": int(f[6]), "sites": f[7] if len(f) > 7 else ""})
             elif f[0] == "STALL":
                 stalls.append(f[1])
+            elif f[0] == "CRASHED":
+                crashes.append((f[1], f[2] if len(f) > 2 else ""))
+    ctx.last_crashes = crashes
     return viols, stats, stalls
 
 
-def triage_gw(ctx, viols, stalls, stall_props=()):
+def triage_gw(ctx, viols, stalls, stall_props=(), monitor_props=None):
     """Attribute monitor violations of this property to known findings, report the rest."""
     reported = set()
     nk = 0
+    mprops = monitor_props or (ctx.pid,)
     for v in viols:
-        if v["prop"] != ctx.pid:
+        if v["prop"] not in mprops:
             continue
         contexts, sites = viol_context(v["path"], v["c"], v["line"])
-        kf = match_known(ctx, ctx.pid, v["kind"], contexts, sites, v["r"])
+        kf = match_known(ctx, v["prop"], v["kind"], contexts, sites, v["r"])
         if kf:
             ctx.add_known(kf["id"], kf["what"])
             nk += 1
@@ -528,9 +540,18 @@ def triage_gw(ctx, viols, stalls, stall_props=()):
             subprocess.run(["cp", v["path"], keep[:-len(".history.json")] + ".trace"])
         except Exception:
             pass
-        ctx.add_violation("%s: monitor %s on connection %s resource %s at trace line %d (contexts %s)" % (
-            ctx.pid, v["kind"], v["c"], v["r"], v["line"], ",".join(contexts) or "-"),
+        ctx.add_violation("%s: monitor %s/%s on connection %s resource %s at trace line %d (contexts %s)" % (
+            ctx.pid, v["prop"], v["kind"], v["c"], v["r"], v["line"], ",".join(contexts) or "-"),
             {"kind": "gw", "history": keep, "violation": v, "contexts": contexts})
+    for path, msg in getattr(ctx, "last_crashes", [])[:2]:
+        hist = path[:-len(".trace")] + ".history.json"
+        keep = os.path.join(REPLAYS, "%s-crash-%s" % (ctx.pid, os.path.basename(hist)))
+        subprocess.run(["cp", hist, keep])
+        if ctx.pid in ("C15", "C20"):
+            ctx.add_violation("the gateway process died during history %s: %s" % (os.path.basename(path), msg),
+                              {"kind": "gw", "history": keep, "crash": msg})
+        else:
+            ctx.notes.append("gateway crashed in %s (%s): reported by the C15 check" % (os.path.basename(path), msg))
     if ctx.pid in stall_props:
         for s in stalls[:1]:
             hist = s[:-len(".trace")] + ".history.json"
@@ -541,7 +562,7 @@ def triage_gw(ctx, viols, stalls, stall_props=()):
     return nk
 
 
-def stage_gw(ctx, profiles, stall_props=("C13", "C15", "C19")):
+def stage_gw(ctx, profiles, stall_props=("C13", "C15", "C19"), monitor_props=None):
     """Explore histories of the real gateway under the harness scheduler and evaluate the Coq monitors on the traces."""
     rep = {"profiles": {}}
     if ctx.replay:
@@ -549,7 +570,7 @@ def stage_gw(ctx, profiles, stall_props=("C13", "C15", "C19")):
         tdir = os.path.join(ctx.work, "replay")
         rc, out = sh([os.path.join(BUILD, "gwrun"), "-replay", payload["history"], "-out", tdir], timeout=600)
         viols, stats, stalls = run_traces(ctx, tdir)
-        triage_gw(ctx, viols, stalls, stall_props)
+        triage_gw(ctx, viols, stalls, stall_props, monitor_props)
         ctx.evaluations += 1
         return {"replayed": payload["history"], "violations": [v for v in viols if v["prop"] == ctx.pid]}
     # recorded findings of this property: replay each one's history (deterministic) so that it is reported on
@@ -589,7 +610,7 @@ def stage_gw(ctx, profiles, stall_props=("C13", "C15", "C19")):
             rep["profiles"][name] = {"error": out[-800:]}
             continue
         viols, stats, stalls = run_traces(ctx, tdir)
-        nk = triage_gw(ctx, viols, stalls, stall_props)
+        nk = triage_gw(ctx, viols, stalls, stall_props, monitor_props)
         steps = sum(s["events"] for s in stats)
         nontriv = sum(1 for s in stats if s["frames"] > 4 and s["q"] > 0)
         site_free = sum(1 for s in stats if not s["sites"])
@@ -599,7 +620,7 @@ def stage_gw(ctx, profiles, stall_props=("C13", "C15", "C19")):
         rep["profiles"][name] = {"histories": len(stats), "trace_events": steps, "client_frames": sum(s["frames"] for s in stats),
                                  "service_events": sum(s["svc_events"] for s in stats), "quiescent_points": sum(s["q"] for s in stats),
                                  "histories_without_site_marks": site_free, "stalls": len(stalls),
-                                 "violations_all_properties": len(viols), "violations_this_property": sum(1 for v in viols if v["prop"] == ctx.pid),
+                                 "violations_all_properties": len(viols), "violations_this_property": sum(1 for v in viols if v["prop"] in (monitor_props or (ctx.pid,))),
                                  "attributed_to_known_findings": nk}
         if stats:
             p = stats[0]["path"]
